@@ -186,6 +186,37 @@ theorem impl_genesis_C (k : Nat) : vbft_genesis_C0 (k : Int) = ((k / 3 : Nat) : 
   unfold vbft_genesis_C0
   rw [tdivN _ _ (by omega)]; omega
 
+/-! ## The VBFT commit rule counts the proposer implicitly (`len(signers) + 1 ≥ N - f`)
+
+`getCommitConsensus` adds one to the number of distinct commit signers (C41 proves they are distinct). The two
+theorems say what intersection that rule buys, about the generated expression `vbft_getCommitConsensus0`. -/
+
+/-- When each proposer is a participant that is not among the signers of its own commit messages, the supporters
+(signers plus proposer) of two commit decisions share more than f participants. -/
+theorem vbft_commit_supporters_intersect {α : Type} [DecidableEq α] (V A B : Finset α) (p q : α)
+    (hA : A ⊆ V) (hB : B ⊆ V) (hp : p ∈ V) (hq : q ∈ V) (hpA : p ∉ A) (hqB : q ∉ B)
+    (ha : vbft_getCommitConsensus0 (A.card : Int) (V.card : Int) = true)
+    (hb : vbft_getCommitConsensus0 (B.card : Int) (V.card : Int) = true) :
+    f V.card < ((insert p A) ∩ (insert q B)).card := by
+  have hN : 1 ≤ V.card := Finset.card_pos.mpr ⟨p, hp⟩
+  apply intersect_A V (insert p A) (insert q B) (Finset.insert_subset hp hA) (Finset.insert_subset hq hB) hN
+  · rw [Finset.card_insert_of_notMem hpA]; exact (impl_vbft_commit A.card V.card).mp ha
+  · rw [Finset.card_insert_of_notMem hqB]; exact (impl_vbft_commit B.card V.card).mp hb
+
+/-- Without that hypothesis (a proposer that also signs a commit message for its own proposal is counted twice by
+the `+ 1`) the signers alone still share at least f - 1 participants, and no more can be promised at N = 3f + 1. -/
+theorem vbft_commit_signers_overlap {α : Type} [DecidableEq α] (V A B : Finset α) (hA : A ⊆ V) (hB : B ⊆ V)
+    (hN : 1 ≤ V.card)
+    (ha : vbft_getCommitConsensus0 (A.card : Int) (V.card : Int) = true)
+    (hb : vbft_getCommitConsensus0 (B.card : Int) (V.card : Int) = true) :
+    f V.card ≤ (A ∩ B).card + 1 := by
+  have h1 := Finset.card_union_add_card_inter A B
+  have h2 : (A ∪ B).card ≤ V.card := Finset.card_le_card (Finset.union_subset hA hB)
+  have ha' := (impl_vbft_commit A.card V.card).mp ha
+  have hb' := (impl_vbft_commit B.card V.card).mp hb
+  unfold thrA at ha' hb'; unfold f
+  omega
+
 /-! ## Behaviour: a ledger fed by distinct validators fires exactly at the threshold
 
 `firstFire p n` (Poly.Model.Quorum) is what the correspondence stream `quorum` observes on the real
